@@ -109,16 +109,18 @@ def make_pyvis_net(
         network_kwargs = {"cdn_resources": "local"}
     net = network.Network(**network_kwargs)
     verts = list(uni.vertices)
+
+    # index of every member vertex, keyed by object identity, for fast lookup
+    # of the far end of an edge later on.  kept local to this call: nothing is
+    # stored on the vertices themselves, so nothing is left behind when a
+    # callback raises, and nothing a vertex carried in can be mistaken for it
+    index = {}
     for i, vert in enumerate(verts):
         if rvfunc:
             net.add_node(i, label=rvfunc(vert))
         else:
             net.add_node(i, label=hex(id(vert)))
-
-        # store a temporary attribute on the object that we will use for fast
-        # lookup of this vertex's index later on
-        # pylint: disable-next=protected-access
-        vert.__make_pyvis_net_i = i
+        index[id(vert)] = i
 
     for i, vert in enumerate(verts):
         for edge in vert.links:
@@ -129,11 +131,9 @@ def make_pyvis_net(
                 continue
 
             other = edge.other(vert)
-            try:
-                # this is *much* faster than something like verts.index(other)
-                # pylint: disable-next=protected-access
-                j = other.__make_pyvis_net_i
-            except AttributeError:
+            # this is *much* faster than something like verts.index(other)
+            j = index.get(id(other))
+            if j is None:
                 # not a member
                 continue
 
@@ -152,18 +152,9 @@ def make_pyvis_net(
                     net.add_edge(i, j)
             except AssertionError:
                 # AssertionError is raised by pyvis module if trying to link to
-                # a non-existent vertex (node).  this should be exceedingly
-                # rare in the wild, but can be triggered if a vertex already
-                # has the ``__make_pyvis_net_i`` attribute that we didn't add
-                # in this function (i.e. it carried it in).
-                #
-                # the effect of this is that the node we're trying to link to
-                # doesn't exist, so skip it.
+                # a non-existent vertex (node).  the effect of this is that
+                # the node we're trying to link to doesn't exist, so skip it.
                 continue
-
-    # make sure we remove our temporary attribute
-    for vert in verts:
-        del vert.__make_pyvis_net_i
 
     return net
 
